@@ -1,0 +1,415 @@
+//! Verification hooks. Compiled only with the cargo feature `verif`; with the feature off this
+//! module and every call into it are compiled out.
+//!
+//! Events are appended to a thread-local buffer as one JSON object per entry, each *after* the
+//! state change it reports. The library is sequential, so the per-thread order is a total order.
+
+use crate::model::{
+    doc::RustDocument,
+    field::Field,
+    node::RustNode,
+    soap::{binding::SoapBinding, message::SoapMessage, port::SoapPort, service::SoapService},
+    structures::{RustType, element::ElementType},
+};
+use std::cell::{Cell, RefCell};
+
+thread_local! {
+    static EVENTS: RefCell<Vec<String>> = const { RefCell::new(Vec::new()) };
+    static ENABLED: Cell<bool> = const { Cell::new(false) };
+    static DEPTH: Cell<u32> = const { Cell::new(0) };
+}
+
+/// Switch recording on or off for the current thread (off by default).
+pub fn enable(on: bool) {
+    ENABLED.with(|e| e.set(on));
+}
+
+/// Drain the events recorded on the current thread.
+#[must_use]
+pub fn take_events() -> Vec<String> {
+    DEPTH.with(|d| d.set(0));
+    EVENTS.with(|e| std::mem::take(&mut *e.borrow_mut()))
+}
+
+fn on() -> bool {
+    ENABLED.with(Cell::get)
+}
+
+fn push(line: String) {
+    EVENTS.with(|e| e.borrow_mut().push(line));
+}
+
+/// JSON string literal
+#[must_use]
+pub fn esc(s: &str) -> String {
+    let mut out = String::with_capacity(s.len() + 2);
+    out.push('"');
+    for c in s.chars() {
+        match c {
+            '"' => out.push_str("\\\""),
+            '\\' => out.push_str("\\\\"),
+            '\n' => out.push_str("\\n"),
+            '\r' => out.push_str("\\r"),
+            '\t' => out.push_str("\\t"),
+            c if (c as u32) < 0x20 => out.push_str(&format!("\\u{:04x}", c as u32)),
+            c => out.push(c),
+        }
+    }
+    out.push('"');
+    out
+}
+
+fn opt(s: Option<&str>) -> String {
+    s.map_or_else(|| "null".to_string(), esc)
+}
+
+// ---------------------------------------------------------------- reader.rs
+
+pub(crate) struct FileGuard {
+    file: String,
+    ok: bool,
+    sizes: (usize, usize, usize),
+}
+
+impl FileGuard {
+    pub(crate) fn enter(file: &str) -> Self {
+        if on() {
+            push(format!("{{\"ev\":\"enter_file\",\"file\":{}}}", esc(file)));
+        }
+        FileGuard {
+            file: file.to_string(),
+            ok: false,
+            sizes: (0, 0, 0),
+        }
+    }
+
+    pub(crate) fn ok(&mut self, doc: &RustDocument) {
+        self.ok = true;
+        self.sizes = (doc.nodes.len(), doc.namespaces.len(), doc.target_namespaces.len());
+    }
+}
+
+impl Drop for FileGuard {
+    fn drop(&mut self) {
+        if on() {
+            push(format!(
+                "{{\"ev\":\"leave_file\",\"file\":{},\"ok\":{},\"nodes\":{},\"nss\":{},\"tns\":{}}}",
+                esc(&self.file),
+                self.ok,
+                self.sizes.0,
+                self.sizes.1,
+                self.sizes.2
+            ));
+        }
+    }
+}
+
+pub(crate) fn skip_processed(file: &str) {
+    if on() {
+        push(format!("{{\"ev\":\"skip_processed\",\"file\":{}}}", esc(file)));
+    }
+}
+
+pub(crate) fn parse_fail(file: &str) {
+    if on() {
+        push(format!("{{\"ev\":\"parse_fail\",\"file\":{}}}", esc(file)));
+    }
+}
+
+pub(crate) fn import(ns: Option<&str>, loc: Option<&str>, outcome: &str) {
+    if on() {
+        push(format!(
+            "{{\"ev\":\"import\",\"ns\":{},\"loc\":{},\"outcome\":{}}}",
+            opt(ns),
+            opt(loc),
+            esc(outcome)
+        ));
+    }
+}
+
+pub(crate) fn try_child(node: &roxmltree::Node) {
+    if on() && node.is_element() {
+        push(format!(
+            "{{\"ev\":\"try_child\",\"tag\":{},\"name\":{}}}",
+            esc(node.tag_name().name()),
+            opt(node.attribute("name"))
+        ));
+    }
+}
+
+fn field_json(f: &Field) -> String {
+    format!(
+        "{{\"n\":{},\"rn\":{},\"ty\":{},\"opt\":{},\"vec\":{},\"attr\":{},\"choice\":{},\"any\":{},\"ns\":{},\"abbr\":{}}}",
+        esc(&f.xml_name),
+        esc(&f.rust_name),
+        esc(&f.rust_type.to_string()),
+        f.is_optional,
+        f.is_vec,
+        f.is_attribute,
+        f.is_choice,
+        f.is_any,
+        opt(f.target_namespace.as_ref().map(|n| n.namespace.as_str())),
+        opt(f.target_namespace.as_ref().map(|n| n.abbreviation.as_str()))
+    )
+}
+
+fn fields_json(fs: &[Field]) -> String {
+    format!("[{}]", fs.iter().map(field_json).collect::<Vec<_>>().join(","))
+}
+
+fn node_kind(n: &RustNode) -> (&'static str, String) {
+    match &n.rust_type {
+        RustType::Ignore => ("ignore", "[]".to_string()),
+        RustType::Complex(p) => ("complex", fields_json(&p.fields)),
+        RustType::Simple(_) => ("simple", "[]".to_string()),
+        RustType::Element(p) => match &p.element_type {
+            ElementType::RustType(_) => ("element_typed", "[]".to_string()),
+            ElementType::ComplexType(c) => ("element_complex", fields_json(&c.fields)),
+            ElementType::Unsupported => ("element_unsupported", "[]".to_string()),
+        },
+    }
+}
+
+fn node_extra(n: &RustNode) -> String {
+    match &n.rust_type {
+        RustType::Simple(p) => format!(",\"base\":{}", esc(&p.rust_type.to_string())),
+        RustType::Element(p) => match &p.element_type {
+            ElementType::RustType(t) => format!(",\"base\":{}", esc(&t.to_string())),
+            _ => String::new(),
+        },
+        _ => String::new(),
+    }
+}
+
+fn node_brief(n: &RustNode) -> String {
+    let (kind, _) = node_kind(n);
+    format!(
+        "{{\"kind\":{},\"name\":{},\"ns\":{}}}",
+        esc(kind),
+        opt(n.xml_name()),
+        opt(n.in_namespace.as_ref().map(|n| n.namespace.as_str()))
+    )
+}
+
+pub(crate) fn push_node(n: &RustNode) {
+    if on() {
+        let (kind, fields) = node_kind(n);
+        push(format!(
+            "{{\"ev\":\"push_node\",\"kind\":{},\"name\":{},\"ns\":{},\"abbr\":{},\"fields\":{}{}}}",
+            esc(kind),
+            opt(n.xml_name()),
+            opt(n.in_namespace.as_ref().map(|n| n.namespace.as_str())),
+            opt(n.in_namespace.as_ref().map(|n| n.abbreviation.as_str())),
+            fields,
+            node_extra(n)
+        ));
+    }
+}
+
+// ---------------------------------------------------------------- doc.rs
+
+pub(crate) fn ns_ref(prefix: &str, uri: &str, outcome: &str, abbr: Option<&str>) {
+    if on() {
+        push(format!(
+            "{{\"ev\":\"ns_ref\",\"prefix\":{},\"uri\":{},\"outcome\":{},\"abbr\":{}}}",
+            esc(prefix),
+            esc(uri),
+            esc(outcome),
+            opt(abbr)
+        ));
+    }
+}
+
+pub(crate) fn switch_tns(uri: &str, outcome: &str, abbr: Option<&str>) {
+    if on() {
+        push(format!(
+            "{{\"ev\":\"switch_tns\",\"uri\":{},\"outcome\":{},\"abbr\":{}}}",
+            esc(uri),
+            esc(outcome),
+            opt(abbr)
+        ));
+    }
+}
+
+/// prefixes of `other` that are bound in `me` to a different namespace record
+pub(crate) fn merge_overwrites(me: &RustDocument, other: &RustDocument) -> Vec<String> {
+    let mut v: Vec<String> = other
+        .namespace_lookup
+        .iter()
+        .filter(|(k, ns)| me.namespace_lookup.get(*k).is_some_and(|mine| mine != *ns))
+        .map(|(k, _)| k.clone())
+        .collect();
+    v.sort();
+    v
+}
+
+pub(crate) fn merge(overwritten: &[String], other_nodes: usize, me: &RustDocument) {
+    if on() {
+        push(format!(
+            "{{\"ev\":\"merge\",\"overwritten\":[{}],\"from_nodes\":{},\"nodes\":{},\"nss\":{},\"tns\":{}}}",
+            overwritten.iter().map(|s| esc(s)).collect::<Vec<_>>().join(","),
+            other_nodes,
+            me.nodes.len(),
+            me.namespaces.len(),
+            me.target_namespaces.len()
+        ));
+    }
+}
+
+pub(crate) struct LookupGuard {
+    hit: Option<String>,
+}
+
+impl LookupGuard {
+    pub(crate) fn start(name: &str, ns: Option<&crate::model::Namespace>) -> Self {
+        if on() {
+            let d = DEPTH.with(|d| {
+                d.set(d.get() + 1);
+                d.get()
+            });
+            push(format!(
+                "{{\"ev\":\"lookup_start\",\"name\":{},\"ns\":{},\"depth\":{}}}",
+                esc(name),
+                opt(ns.map(|n| n.namespace.as_str())),
+                d
+            ));
+        }
+        LookupGuard { hit: None }
+    }
+
+    pub(crate) fn hit(&mut self, how: &str, n: &RustNode) {
+        if on() {
+            self.hit = Some(format!("\"how\":{},\"node\":{}", esc(how), node_brief(n)));
+        }
+    }
+}
+
+impl Drop for LookupGuard {
+    fn drop(&mut self) {
+        if on() {
+            let d = DEPTH.with(|d| {
+                let v = d.get();
+                d.set(v.saturating_sub(1));
+                v
+            });
+            match &self.hit {
+                Some(h) => push(format!("{{\"ev\":\"lookup_end\",\"depth\":{d},{h}}}")),
+                None => push(format!("{{\"ev\":\"lookup_end\",\"depth\":{d},\"how\":\"none\"}}")),
+            }
+        }
+    }
+}
+
+pub(crate) fn emit(section: &str, subject: Option<&str>) {
+    if on() {
+        push(format!(
+            "{{\"ev\":\"emit\",\"section\":{},\"subject\":{}}}",
+            esc(section),
+            opt(subject)
+        ));
+    }
+}
+
+// ---------------------------------------------------------------- soap
+
+pub(crate) fn soap_message(m: &SoapMessage) {
+    if on() {
+        let mut parts: Vec<(&String, String)> = m
+            .parts
+            .iter()
+            .map(|(k, (n, ns))| {
+                (
+                    k,
+                    format!(
+                        "{{\"part\":{},\"node\":{},\"ref_ns\":{}}}",
+                        esc(k),
+                        node_brief(n),
+                        opt(ns.as_ref().map(|n| n.namespace.as_str()))
+                    ),
+                )
+            })
+            .collect();
+        parts.sort();
+        push(format!(
+            "{{\"ev\":\"soap_message\",\"name\":{},\"parts\":[{}]}}",
+            esc(&m.xml_name),
+            parts.into_iter().map(|p| p.1).collect::<Vec<_>>().join(",")
+        ));
+    }
+}
+
+pub(crate) fn soap_port(p: &SoapPort) {
+    if on() {
+        let mut ops: Vec<(&String, String)> = p
+            .operations
+            .iter()
+            .map(|(k, o)| {
+                (
+                    k,
+                    format!(
+                        "{{\"op\":{},\"input\":{},\"output\":{}}}",
+                        esc(k),
+                        esc(&o.input.message.xml_name),
+                        opt(o.output.as_ref().map(|m| m.message.xml_name.as_str()))
+                    ),
+                )
+            })
+            .collect();
+        ops.sort();
+        push(format!(
+            "{{\"ev\":\"soap_port\",\"name\":{},\"ops\":[{}]}}",
+            esc(&p.xml_name),
+            ops.into_iter().map(|p| p.1).collect::<Vec<_>>().join(",")
+        ));
+    }
+}
+
+fn envelope_json(e: &crate::model::soap::binding::SoapEnvelope) -> String {
+    format!(
+        "{{\"body\":{},\"headers\":[{}]}}",
+        node_brief(&e.body),
+        e.headers
+            .iter()
+            .map(|(p, n)| format!("{{\"part\":{},\"node\":{}}}", esc(p), node_brief(n)))
+            .collect::<Vec<_>>()
+            .join(",")
+    )
+}
+
+pub(crate) fn soap_binding(b: &SoapBinding) {
+    if on() {
+        let mut ops: Vec<(&String, String)> = b
+            .operations
+            .iter()
+            .map(|(k, o)| {
+                (
+                    k,
+                    format!(
+                        "{{\"op\":{},\"action\":{},\"input\":{},\"output\":{}}}",
+                        esc(k),
+                        opt(o.action.as_ref().map(reqwest::Url::as_str)),
+                        envelope_json(&o.input),
+                        o.output.as_ref().map_or_else(|| "null".to_string(), envelope_json)
+                    ),
+                )
+            })
+            .collect();
+        ops.sort();
+        push(format!(
+            "{{\"ev\":\"soap_binding\",\"name\":{},\"ops\":[{}]}}",
+            esc(&b.name),
+            ops.into_iter().map(|p| p.1).collect::<Vec<_>>().join(",")
+        ));
+    }
+}
+
+pub(crate) fn soap_service(s: &SoapService) {
+    if on() {
+        push(format!(
+            "{{\"ev\":\"soap_service\",\"name\":{},\"binding\":{},\"location\":{}}}",
+            esc(&s.name),
+            esc(&s.binding.name),
+            esc(s.location.as_str())
+        ));
+    }
+}
